@@ -13,6 +13,10 @@ def Method.isGuard : Method → Bool
   | .entryGuard | .exitGuard => true
   | _ => false
 
+def Ev.isCb : Ev → Bool
+  | .cb .. => true
+  | _ => false
+
 /-- a delivery (visible or not) of a lifecycle callback -/
 def Ev.isLife : Ev → Bool
   | .cb k _ _ => k.method.isLife
@@ -22,78 +26,86 @@ def Ev.isGuard : Ev → Bool
   | .cb k _ _ => k.method.isGuard
   | _ => false
 
-def Ev.isCb : Ev → Bool
-  | .cb .. => true
-  | _ => false
+/-- event predicates that only look at callback deliveries and only at their method -/
+structure MethodPred (p : Ev → Bool) : Prop where
+  onlyCb : ∀ e, p e = true → e.isCb = true
+  byMethod : ∀ k k' vis vis' o o', k.method = k'.method → p (.cb k vis o) = p (.cb k' vis' o')
 
-def life (es : List Ev) : List Ev := es.filter Ev.isLife
-def guards (es : List Ev) : List Ev := es.filter Ev.isGuard
-
-@[simp] theorem life_nil : life [] = [] := rfl
-@[simp] theorem life_append (a b : List Ev) : life (a ++ b) = life a ++ life b := by simp [life]
-@[simp] theorem guards_nil : guards [] = [] := rfl
-@[simp] theorem guards_append (a b : List Ev) : guards (a ++ b) = guards a ++ guards b := by simp [guards]
+theorem methodPred_isLife : MethodPred Ev.isLife :=
+  ⟨fun e h => by cases e <;> simp_all [Ev.isLife, Ev.isCb], fun k k' _ _ _ _ h => by simp [Ev.isLife, h]⟩
+theorem methodPred_isGuard : MethodPred Ev.isGuard :=
+  ⟨fun e h => by cases e <;> simp_all [Ev.isGuard, Ev.isCb], fun k k' _ _ _ _ h => by simp [Ev.isGuard, h]⟩
 
 /-- a step that does not touch `active` / `requested` -/
 def Stable (f : Step) : Prop :=
   ∀ s, (f s).1.core.active = s.core.active ∧ (f s).1.core.requested = s.core.requested
 
-/-- a step that emits no lifecycle event -/
-def NoLife (f : Step) : Prop := ∀ s, life (f s).2 = []
+/-- a step that does not touch `active` -/
+def KeepsActive (f : Step) : Prop := ∀ s, (f s).1.core.active = s.core.active
 
-/-- a step that emits no guard delivery -/
-def NoGuard (f : Step) : Prop := ∀ s, guards (f s).2 = []
+theorem Stable.keepsActive {f : Step} (h : Stable f) : KeepsActive f := fun s => (h s).1
+
+/-- a step none of whose events satisfies `p` -/
+def Silent (p : Ev → Bool) (f : Step) : Prop := ∀ s, (f s).2.filter p = []
+
+abbrev NoLife := Silent Ev.isLife
+abbrev NoGuard := Silent Ev.isGuard
 
 theorem Stable.seq {f g : Step} (hf : Stable f) (hg : Stable g) : Stable (f ⋙ g) := by
   intro s
   simp only [Step.seq]
   exact ⟨(hg _).1.trans (hf s).1, (hg _).2.trans (hf s).2⟩
 
-theorem NoLife.seq {f g : Step} (hf : NoLife f) (hg : NoLife g) : NoLife (f ⋙ g) := by
-  intro s; simp only [Step.seq, life_append, hf s, hg _, List.append_nil]
+theorem KeepsActive.seq {f g : Step} (hf : KeepsActive f) (hg : KeepsActive g) : KeepsActive (f ⋙ g) := by
+  intro s; simp only [Step.seq]; exact (hg _).trans (hf s)
 
-theorem NoGuard.seq {f g : Step} (hf : NoGuard f) (hg : NoGuard g) : NoGuard (f ⋙ g) := by
-  intro s; simp only [Step.seq, guards_append, hf s, hg _, List.append_nil]
+theorem Silent.seq {p : Ev → Bool} {f g : Step} (hf : Silent p f) (hg : Silent p g) : Silent p (f ⋙ g) := by
+  intro s; simp only [Step.seq, List.filter_append, hf s, hg _, List.append_nil]
 
 theorem stable_skip : Stable skip := fun _ => ⟨rfl, rfl⟩
-theorem noLife_skip : NoLife skip := fun _ => rfl
-theorem noGuard_skip : NoGuard skip := fun _ => rfl
-
+theorem silent_skip (p : Ev → Bool) : Silent p skip := fun _ => rfl
 theorem stable_emit (e : St → List Ev) : Stable (emit e) := fun _ => ⟨rfl, rfl⟩
-theorem noLife_emit {e : St → List Ev} (h : ∀ s, life (e s) = []) : NoLife (emit e) := fun s => h s
-theorem noGuard_emit {e : St → List Ev} (h : ∀ s, guards (e s) = []) : NoGuard (emit e) := fun s => h s
-
+theorem silent_emit {p : Ev → Bool} {e : St → List Ev} (h : ∀ s, (e s).filter p = []) : Silent p (emit e) := fun s => h s
 theorem stable_modify {m : St → St} (h : ∀ s, (m s).core.active = s.core.active ∧ (m s).core.requested = s.core.requested) :
     Stable (modify m) := fun s => h s
-theorem noLife_modify (m : St → St) : NoLife (modify m) := fun _ => rfl
-theorem noGuard_modify (m : St → St) : NoGuard (modify m) := fun _ => rfl
-
+theorem silent_modify (p : Ev → Bool) (m : St → St) : Silent p (modify m) := fun _ => rfl
 theorem stable_modifyCore {m : Core → Core} (h : ∀ c, (m c).active = c.active ∧ (m c).requested = c.requested) :
     Stable (modifyCore m) := fun s => h s.core
-theorem noLife_modifyCore (m : Core → Core) : NoLife (modifyCore m) := fun _ => rfl
-theorem noGuard_modifyCore (m : Core → Core) : NoGuard (modifyCore m) := fun _ => rfl
+theorem keepsActive_modifyCore {m : Core → Core} (h : ∀ c, (m c).active = c.active) :
+    KeepsActive (modifyCore m) := fun s => h s.core
+theorem silent_modifyCore (p : Ev → Bool) (m : Core → Core) : Silent p (modifyCore m) := fun _ => rfl
 
 theorem stable_seqList {l : List Step} (h : ∀ f ∈ l, Stable f) : Stable (seqList l) := by
   induction l with
   | nil => exact stable_skip
-  | cons f fs ih =>
-    exact Stable.seq (h f (by simp)) (ih fun g hg => h g (by simp [hg]))
+  | cons f fs ih => exact Stable.seq (h f (by simp)) (ih fun g hg => h g (by simp [hg]))
 
-theorem noLife_seqList {l : List Step} (h : ∀ f ∈ l, NoLife f) : NoLife (seqList l) := by
+theorem silent_seqList {p : Ev → Bool} {l : List Step} (h : ∀ f ∈ l, Silent p f) : Silent p (seqList l) := by
   induction l with
-  | nil => exact noLife_skip
-  | cons f fs ih => exact NoLife.seq (h f (by simp)) (ih fun g hg => h g (by simp [hg]))
+  | nil => exact silent_skip p
+  | cons f fs ih => exact Silent.seq (h f (by simp)) (ih fun g hg => h g (by simp [hg]))
 
-theorem noGuard_seqList {l : List Step} (h : ∀ f ∈ l, NoGuard f) : NoGuard (seqList l) := by
-  induction l with
-  | nil => exact noGuard_skip
-  | cons f fs ih => exact NoGuard.seq (h f (by simp)) (ih fun g hg => h g (by simp [hg]))
+/-- pointwise helpers: a step given as `fun s => g s s` -/
+theorem stable_dep {g : St → Step} (h : ∀ s0, Stable (g s0)) : Stable (fun s => g s s) := fun s => h s s
+theorem keepsActive_dep {g : St → Step} (h : ∀ s0, KeepsActive (g s0)) : KeepsActive (fun s => g s s) := fun s => h s s
+theorem silent_dep {p : Ev → Bool} {g : St → Step} (h : ∀ s0, Silent p (g s0)) : Silent p (fun s => g s s) := fun s => h s s
 
-theorem life_logEv (env : Env) (c : Core) (r : LogRec) : life (logEv env c r) = [] := by
-  unfold logEv; split <;> simp [life, Ev.isLife]
+theorem filter_logEv {p : Ev → Bool} (hp : MethodPred p) (env : Env) (c : Core) (r : LogRec) :
+    (logEv env c r).filter p = [] := by
+  unfold logEv
+  split
+  · simp only [List.filter_cons, List.filter_nil]
+    have : p (.log env.inst r) = false := by
+      cases h : p (.log env.inst r)
+      · rfl
+      · have := hp.onlyCb _ h; simp [Ev.isCb] at this
+    simp [this]
+  · rfl
 
-theorem guards_logEv (env : Env) (c : Core) (r : LogRec) : guards (logEv env c r) = [] := by
-  unfold logEv; split <;> simp [guards, Ev.isGuard]
+theorem p_act_false {p : Ev → Bool} (hp : MethodPred p) (k : Key) (a : Action) : p (.act k a) = false := by
+  cases h : p (.act k a)
+  · rfl
+  · have := hp.onlyCb _ h; simp [Ev.isCb] at this
 
 /-- **no action of any control flavour writes the registry** -/
 theorem stable_applyAction (env : Env) (sid : Nat) (a : Action) : Stable (applyAction env sid a) := by
@@ -102,21 +114,14 @@ theorem stable_applyAction (env : Env) (sid : Nat) (a : Action) : Stable (applyA
   | planAppend o d p => cases p <;> simp only [applyAction] <;> split <;> exact ⟨rfl, rfl⟩
   | _ => exact ⟨rfl, rfl⟩
 
-theorem noLife_applyAction (env : Env) (sid : Nat) (a : Action) : NoLife (applyAction env sid a) := by
+theorem silent_applyAction {p : Ev → Bool} (hp : MethodPred p) (env : Env) (sid : Nat) (a : Action) :
+    Silent p (applyAction env sid a) := by
   intro s
   cases a with
-  | planAppend o d p => cases p <;> simp only [applyAction] <;> split <;> rfl
+  | planAppend o d q => cases q <;> simp only [applyAction] <;> split <;> rfl
   | planClear => rfl
   | planRemove m => rfl
-  | _ => simp only [applyAction, life_logEv]
-
-theorem noGuard_applyAction (env : Env) (sid : Nat) (a : Action) : NoGuard (applyAction env sid a) := by
-  intro s
-  cases a with
-  | planAppend o d p => cases p <;> simp only [applyAction] <;> split <;> rfl
-  | planClear => rfl
-  | planRemove m => rfl
-  | _ => simp only [applyAction, guards_logEv]
+  | _ => simp only [applyAction, filter_logEv hp]
 
 theorem stable_runActions (env : Env) (fl : Flavour) (sid : Nat) (key : Key) (as : List Action) :
     Stable (runActions env fl sid key as) := by
@@ -129,72 +134,56 @@ theorem stable_runActions (env : Env) (fl : Flavour) (sid : Nat) (key : Key) (as
     · exact Stable.seq (stable_emit _) (stable_applyAction env sid a)
     · exact stable_skip
 
-theorem noLife_runActions (env : Env) (fl : Flavour) (sid : Nat) (key : Key) (as : List Action) :
-    NoLife (runActions env fl sid key as) := by
+theorem silent_runActions {p : Ev → Bool} (hp : MethodPred p) (env : Env) (fl : Flavour) (sid : Nat) (key : Key)
+    (as : List Action) : Silent p (runActions env fl sid key as) := by
   induction as with
-  | nil => exact noLife_skip
+  | nil => exact silent_skip p
   | cons a as ih =>
     simp only [runActions]
-    refine NoLife.seq ?_ ih
+    refine Silent.seq ?_ ih
     split
-    · exact NoLife.seq (noLife_emit fun _ => by simp [life, Ev.isLife]) (noLife_applyAction env sid a)
-    · exact noLife_skip
+    · exact Silent.seq (silent_emit fun _ => by simp [p_act_false hp]) (silent_applyAction hp env sid a)
+    · exact silent_skip p
 
-theorem noGuard_runActions (env : Env) (fl : Flavour) (sid : Nat) (key : Key) (as : List Action) :
-    NoGuard (runActions env fl sid key as) := by
-  induction as with
-  | nil => exact noGuard_skip
-  | cons a as ih =>
-    simp only [runActions]
-    refine NoGuard.seq ?_ ih
-    split
-    · exact NoGuard.seq (noGuard_emit fun _ => by simp [guards, Ev.isGuard]) (noGuard_applyAction env sid a)
-    · exact noGuard_skip
+/-- the step a layer delivery reduces to once the occurrence index is fixed -/
+def layerBody (env : Env) (m : Method) (sid : Nat) (cur pend : Tr) (layer : Layer) (occ : Nat) : Step :=
+  (emit fun st => [Ev.cb ⟨env.inst, env.op, occ, m, sid, layer⟩ (observable env.cfg sid m layer)
+      (observe env m.flavour sid cur pend st.core)]) ⋙
+    (if observable env.cfg sid m layer then
+      runActions env m.flavour sid ⟨env.inst, env.op, occ, m, sid, layer⟩ (env.beh ⟨env.inst, env.op, occ, m, sid, layer⟩)
+     else skip)
+
+theorem deliverLayer_eq (env : Env) (m : Method) (sid : Nat) (cur pend : Tr) (layer : Layer) (s : St) :
+    deliverLayer env m sid cur pend layer s =
+      layerBody env m sid cur pend layer (occOf s.seen (m, sid, layer)) { s with seen := (m, sid, layer) :: s.seen } := rfl
+
+theorem stable_layerBody (env : Env) (m : Method) (sid : Nat) (cur pend : Tr) (layer : Layer) (occ : Nat) :
+    Stable (layerBody env m sid cur pend layer occ) := by
+  unfold layerBody
+  refine Stable.seq (stable_emit _) ?_
+  split
+  · exact stable_runActions _ _ _ _ _
+  · exact stable_skip
 
 theorem stable_deliverLayer (env : Env) (m : Method) (sid : Nat) (cur pend : Tr) (layer : Layer) :
     Stable (deliverLayer env m sid cur pend layer) := by
-  intro s
-  simp only [deliverLayer]
-  have h : Stable ((emit fun st => [Ev.cb ⟨env.inst, env.op, occOf s.seen (m, sid, layer), m, sid, layer⟩
-        (observable env.cfg sid m layer) (observe env m.flavour sid cur pend st.core)]) ⋙
-      (if observable env.cfg sid m layer then
-        runActions env m.flavour sid ⟨env.inst, env.op, occOf s.seen (m, sid, layer), m, sid, layer⟩
-          (env.beh ⟨env.inst, env.op, occOf s.seen (m, sid, layer), m, sid, layer⟩) else skip)) := by
-    refine Stable.seq (stable_emit _) ?_
-    split
-    · exact stable_runActions _ _ _ _ _
-    · exact stable_skip
-  exact h _
+  intro s; rw [deliverLayer_eq]; exact stable_layerBody _ _ _ _ _ _ _ _
 
-theorem noLife_deliverLayer (env : Env) (m : Method) (hm : m.isLife = false) (sid : Nat) (cur pend : Tr) (layer : Layer) :
-    NoLife (deliverLayer env m sid cur pend layer) := by
-  intro s
-  simp only [deliverLayer]
-  have h : NoLife ((emit fun st => [Ev.cb ⟨env.inst, env.op, occOf s.seen (m, sid, layer), m, sid, layer⟩
-        (observable env.cfg sid m layer) (observe env m.flavour sid cur pend st.core)]) ⋙
-      (if observable env.cfg sid m layer then
-        runActions env m.flavour sid ⟨env.inst, env.op, occOf s.seen (m, sid, layer), m, sid, layer⟩
-          (env.beh ⟨env.inst, env.op, occOf s.seen (m, sid, layer), m, sid, layer⟩) else skip)) := by
-    refine NoLife.seq (noLife_emit fun _ => by simp [life, Ev.isLife, hm]) ?_
-    split
-    · exact noLife_runActions _ _ _ _ _
-    · exact noLife_skip
-  exact h _
+theorem silent_layerBody {p : Ev → Bool} (hp : MethodPred p) (env : Env) (m : Method)
+    (hm : ∀ k vis o, k.method = m → p (.cb k vis o) = false) (sid : Nat) (cur pend : Tr) (layer : Layer) (occ : Nat) :
+    Silent p (layerBody env m sid cur pend layer occ) := by
+  unfold layerBody
+  refine Silent.seq (silent_emit fun st => by
+    have := hm ⟨env.inst, env.op, occ, m, sid, layer⟩ (observable env.cfg sid m layer) (observe env m.flavour sid cur pend st.core) rfl
+    simp [this]) ?_
+  split
+  · exact silent_runActions hp _ _ _ _ _
+  · exact silent_skip p
 
-theorem noGuard_deliverLayer (env : Env) (m : Method) (hm : m.isGuard = false) (sid : Nat) (cur pend : Tr) (layer : Layer) :
-    NoGuard (deliverLayer env m sid cur pend layer) := by
-  intro s
-  simp only [deliverLayer]
-  have h : NoGuard ((emit fun st => [Ev.cb ⟨env.inst, env.op, occOf s.seen (m, sid, layer), m, sid, layer⟩
-        (observable env.cfg sid m layer) (observe env m.flavour sid cur pend st.core)]) ⋙
-      (if observable env.cfg sid m layer then
-        runActions env m.flavour sid ⟨env.inst, env.op, occOf s.seen (m, sid, layer), m, sid, layer⟩
-          (env.beh ⟨env.inst, env.op, occOf s.seen (m, sid, layer), m, sid, layer⟩) else skip)) := by
-    refine NoGuard.seq (noGuard_emit fun _ => by simp [guards, Ev.isGuard, hm]) ?_
-    split
-    · exact noGuard_runActions _ _ _ _ _
-    · exact noGuard_skip
-  exact h _
+theorem silent_deliverLayer {p : Ev → Bool} (hp : MethodPred p) (env : Env) (m : Method)
+    (hm : ∀ k vis o, k.method = m → p (.cb k vis o) = false) (sid : Nat) (cur pend : Tr) (layer : Layer) :
+    Silent p (deliverLayer env m sid cur pend layer) := by
+  intro s; rw [deliverLayer_eq]; exact silent_layerBody hp env m hm _ _ _ _ _ _
 
 /-- **a delivery never touches the registry**, whatever the callbacks do -/
 theorem stable_deliver (env : Env) (m : Method) (sid : Nat) (cur pend : Tr) : Stable (deliver env m sid cur pend) := by
@@ -204,26 +193,25 @@ theorem stable_deliver (env : Env) (m : Method) (sid : Nat) (cur pend : Tr) : St
   obtain ⟨l, _, rfl⟩ := List.mem_map.mp hf
   exact stable_deliverLayer _ _ _ _ _ _
 
+/-- a delivery of method `m` emits no event of a kind that excludes `m` -/
+theorem silent_deliver {p : Ev → Bool} (hp : MethodPred p) (env : Env) (m : Method)
+    (hm : ∀ k vis o, k.method = m → p (.cb k vis o) = false) (sid : Nat) (cur pend : Tr) :
+    Silent p (deliver env m sid cur pend) := by
+  unfold deliver
+  refine Silent.seq (silent_emit fun s => by split <;> simp [filter_logEv hp]) (silent_seqList ?_)
+  intro f hf
+  obtain ⟨l, _, rfl⟩ := List.mem_map.mp hf
+  exact silent_deliverLayer hp env m hm _ _ _ _
+
+theorem life_excludes {m : Method} (h : m.isLife = false) : ∀ (k : Key) vis o, k.method = m → Ev.isLife (.cb k vis o) = false := by
+  intro k _ _ hk; simp [Ev.isLife, hk, h]
+theorem guard_excludes {m : Method} (h : m.isGuard = false) : ∀ (k : Key) vis o, k.method = m → Ev.isGuard (.cb k vis o) = false := by
+  intro k _ _ hk; simp [Ev.isGuard, hk, h]
+
 theorem noLife_deliver (env : Env) (m : Method) (hm : m.isLife = false) (sid : Nat) (cur pend : Tr) :
-    NoLife (deliver env m sid cur pend) := by
-  unfold deliver
-  refine NoLife.seq (noLife_emit fun s => by split <;> simp [life_logEv]) (noLife_seqList ?_)
-  intro f hf
-  obtain ⟨l, _, rfl⟩ := List.mem_map.mp hf
-  exact noLife_deliverLayer env m hm _ _ _ _
-
+    NoLife (deliver env m sid cur pend) := silent_deliver methodPred_isLife env m (life_excludes hm) _ _ _
 theorem noGuard_deliver (env : Env) (m : Method) (hm : m.isGuard = false) (sid : Nat) (cur pend : Tr) :
-    NoGuard (deliver env m sid cur pend) := by
-  unfold deliver
-  refine NoGuard.seq (noGuard_emit fun s => by split <;> simp [guards_logEv]) (noGuard_seqList ?_)
-  intro f hf
-  obtain ⟨l, _, rfl⟩ := List.mem_map.mp hf
-  exact noGuard_deliverLayer env m hm _ _ _ _
-
-/-- pointwise helper: a step given as `fun s => g s s` -/
-theorem stable_dep {g : St → Step} (h : ∀ s0, Stable (g s0)) : Stable (fun s => g s s) := fun s => h s s
-theorem noLife_dep {g : St → Step} (h : ∀ s0, NoLife (g s0)) : NoLife (fun s => g s s) := fun s => h s s
-theorem noGuard_dep {g : St → Step} (h : ∀ s0, NoGuard (g s0)) : NoGuard (fun s => g s s) := fun s => h s s
+    NoGuard (deliver env m sid cur pend) := silent_deliver methodPred_isGuard env m (guard_excludes hm) _ _ _
 
 /-- **guard evaluation is pure** w.r.t. the registry and the lifecycle -/
 theorem stable_guardRound (env : Env) (cur pend : Tr) : Stable (guardRound env cur pend) := by
@@ -237,7 +225,7 @@ theorem stable_guardRound (env : Env) (cur pend : Tr) : Stable (guardRound env c
 
 theorem noLife_guardRound (env : Env) (cur pend : Tr) : NoLife (guardRound env cur pend) := by
   unfold guardRound
-  refine NoLife.seq (NoLife.seq (noLife_modify _) (noLife_dep fun s0 => noLife_deliver env _ rfl _ _ _)) ?_
+  refine Silent.seq (Silent.seq (silent_modify _ _) (silent_dep fun s0 => noLife_deliver env _ rfl _ _ _)) ?_
   intro s
   dsimp only
   split
@@ -255,7 +243,7 @@ theorem stable_entryGuardRound (env : Env) (cur pend : Tr) : Stable (entryGuardR
 
 theorem noLife_entryGuardRound (env : Env) (cur pend : Tr) : NoLife (entryGuardRound env cur pend) := by
   unfold entryGuardRound
-  refine NoLife.seq (NoLife.seq (noLife_modify _) (noLife_deliver env _ rfl _ _ _)) ?_
+  refine Silent.seq (Silent.seq (silent_modify _ _) (noLife_deliver env _ rfl _ _ _)) ?_
   intro s
   dsimp only
   split
